@@ -51,6 +51,7 @@ Definition set_opt (st : prep) (o : popt) : prep * bool :=
   match o with
   | SetType v =>
       if v <? 0 then fail 1%N
+      else if 2147483647 <? v then fail 1%N      (* the type is kept in an int (fix fc042ff: larger values are refused) *)
       else match pr_digest st with
            | Some _ => fail 1%N
            | None => (mkPrep v None (pr_size st) 0%N, true)
